@@ -13,12 +13,12 @@ THEOREMS = core.theorems_in(['C10.lean'], 'Flowdyn.C10')
 AUDIT_IMPORTS = ['Flowdyn.Props.C07b', 'Flowdyn.Props.KernelsBridge']
 THEOREMS = THEOREMS + ['Flowdyn.C07.loop_preserves', 'Flowdyn.C07.run_preserves', 'Flowdyn.C07.run_preserves_data']
 THEOREMS = THEOREMS + ['Flowdyn.GenK.%s_eq' % k for k in ['eHlle', 'eRoe', 'swHll', 'swRusanov', 'swDt', 'eDt', 'eCons2prim', 'swCons2prim']]
-AUDIT_IMPORTS = AUDIT_IMPORTS + ['Flowdyn.Props.C10b']
-THEOREMS = THEOREMS + core.theorems_in(['C10b.lean'], 'Flowdyn.C10')
+AUDIT_IMPORTS = AUDIT_IMPORTS + ['Flowdyn.Props.C10b', 'Flowdyn.Props.C10c']
+THEOREMS = THEOREMS + core.theorems_in(['C10b.lean', 'C10c.lean'], 'Flowdyn.C10')
 PARTIAL = {"CFL => wave-speed condition (Euler)": "for Euler HLLE the one-step theorems assume the face condition dt/vol_i * (sR(face i) - sL(face i+1)) <= 1 on the code's own wave speeds; that CFL <= 1/2 on the cell speeds |u|+c implies it is NOT true in general (C10b exhibits cell speeds 7 with a face speed above 8); for shallow water the cell condition CFL <= 1/2 IS sufficient and proved (sw_uniform_fe_positive with the code's swDt); the sweep explores the Euler clause at CFL <= 1/2",
            "HLLC": "positivity of HLLC (Batten's conditions) is not proved; explored by the sweep",
            "stages": "the SSP theorems (rk2_heun, rk3ssp) assume the step condition at every stage state: the code computes dt once per step from the initial state",
-           "boundaries": "pipeline-level theorems are for periodic meshes (any cell sizes); open boundaries by the sweep"}
+           "boundaries": "pipeline-level theorems hold for periodic meshes (C10b) and for open ends with any boundary kernels that preserve admissibility - slip walls, dirichlet with an admissible state, outsup, outsub p>0, inf (C10c.*_open, *_walls, *_named; wall-face speeds bounded by the cell speed for gamma <= 3); the total-quantity and characteristic inlet kernels as admissibility-preserving conditions are not proved"}
 LEVEL_NOTE = "admissible cone convexity, HLL star-state lemma, the exact convex-combination form of the first-order update (C10b.hll_update_convex), the model's eHlle/swHll/swRusanov proved to be HLL fluxes with the code's speeds, hence positivity of one forward-Euler step on the periodic pipeline model on any mesh and of the rk2_heun/rk3ssp steps: see PARTIAL for the hypotheses"
 SSP = ['explicit', 'rk2_heun', 'rk3ssp']
 
